@@ -39,23 +39,28 @@ func runC19(c *Ctx) {
 			if !ok || len(ret.Results) != 2 {
 				continue
 			}
-			e := c.RetX(ret, 1)
-			if e.Op == "nil" {
-				continue
+			// (an error handed up from an unexported helper is judged by what the helper can return)
+			if _, m := Match(Extract("1", c.RoleCall("rwriter.opts")), c.RetX(ret, 1)); m {
+				continue // the option-parsing error is passed through
 			}
-			// the option-parsing error is passed through
-			if _, m := Match(Extract("1", c.RoleCall("rwriter.opts")), e); m {
-				continue
-			}
-			n++
-			m, ok := Match(Call("apierror.New", Any(), Bind("st")), e)
-			okSt := false
-			if ok {
-				if st, isC := constInt(m["st"]); isC && st >= 400 && st < 500 {
-					okSt = true
+			for _, e := range c.Leaves(c.RetX(ret, 1), ret) {
+				if e.Op == "nil" {
+					continue
 				}
+				// the option-parsing error is passed through
+				if _, m := Match(Extract("1", c.RoleCall("rwriter.opts")), e); m {
+					continue
+				}
+				n++
+				m, ok := Match(Call("apierror.New", Any(), Bind("st")), e)
+				okSt := false
+				if ok {
+					if st, isC := constInt(m["st"]); isC && st >= 400 && st < 500 {
+						okSt = true
+					}
+				}
+				c.Check(okSt, "C19.W1-client-errors-are-4xx", nw.Name+" › error return #"+itoa(n), ret.Pos(), "returns apierror.New(_, 4xx)", "constructor returns an error that is not a 4xx API error: "+abbreviate(e.String()))
 			}
-			c.Check(okSt, "C19.W1-client-errors-are-4xx", nw.Name+" › error return #"+itoa(n), ret.Pos(), "returns apierror.New(_, 4xx)", "constructor returns an error that is not a 4xx API error: "+abbreviate(e.String()))
 		}
 		c.Floor("C19.W1-client-errors-are-4xx", 6)
 	}
